@@ -64,12 +64,17 @@ Definition is_push (o : op) : bool :=
 Definition is_front (o : op) : bool := match o with PushFront _ | EmplFront _ => true | _ => false end.
 Definition push_val (o : op) : Z :=
   match o with PushFront v | PushBack v | EmplFront v | EmplBack v => v | _ => 0 end.
+(* the element type's constructor throws on a negative payload (the driver's Elem does); this is the
+   throw plan: it is part of the programs, so the theorems quantify over every plan *)
+Definition throws (o : op) : bool := (push_val o <? 0)%Z.
+Definition FID_CTOR : Z := 1.
 
 (* ---------- heap ---------- *)
 Inductive cst := Alloc | Constr | Destr | Freed.
 Record node := Node { nnext : option nat; nback : option nat; ndel : bool; nval : Z; npos : Z }.
 Record zrec := ZRec { znext : option nat; zowner : option nat; znode : option nat }.
-Inductive body := BNode (n : node) | BRec (r : zrec).
+(* BRaw: storage of a list node whose constructor is going to throw (never constructed) *)
+Inductive body := BNode (n : node) | BRec (r : zrec) | BRaw.
 Record cell := Cell { cs : cst; cb : body; nct : nat; ndt : nat; nfr : nat }.
 
 Definition dnode : node := Node None None false 0 0.
@@ -172,6 +177,12 @@ Definition do_dealloc (g : glob) (k : nat) : glob * list ev :=
   let ok := cs_is g k Destr in
   let g1 := modc g k (fun c => bump_fr (if ok then set_cs Freed c else c)) in
   let '(g2, fe) := lfault ok k g1 in (g2, E K_DEALLOC (cbase k) 0 :: fe).
+(* deallocate of storage that was never constructed (construction threw); only raw storage is touched *)
+Definition israwc (c : cell) : bool := match cb c with BRaw => true | _ => false end.
+Definition do_dealloc_raw (g : glob) (k : nat) : glob * list ev :=
+  let ok := cs_is g k Alloc && match getc g k with Some c => israwc c | None => false end in
+  let g1 := modc g k (fun c => if israwc c then bump_fr (if ok then set_cs Freed c else c) else c) in
+  let '(g2, fe) := lfault ok k g1 in (g2, E K_DEALLOC (cbase k) 0 :: fe).
 (* destroy / deallocate of a null pointer (only reachable in [unfixed] mode) *)
 Definition null_call (g : glob) (kind : Z) : glob * list ev :=
   (with_fault g, [E kind 0 0; E K_FAULT 0 2]).
@@ -190,6 +201,8 @@ Inductive pc :=
 | PF_next (n old : nat) | PF_back (n old : nat) | PF_head (n : nat)
 | PB_back (n old : nat) | PB_next (n old : nat) | PB_tail (n : nat)
 | P_unlock
+(* push whose element constructor throws: allocate; construct throws; catch: deallocate; ~lock_guard; rethrow *)
+| PX_alloc | PX_constr (n : nat) | PX_free (n : nat) | PX_unl
 (* erase *)
 | E_lock (it c : nat) | E_ld0 (it c : nat) | E_ldb (it c : nat) (nx0 : option nat)
 | E_ldn (it c : nat) (nx0 pv : option nat) | E_s1 (it c : nat) (nx0 pv nx : option nat)
@@ -325,9 +338,17 @@ Definition tstep (t c : nat) (g : glob) (l : loc) : option (glob * loc * list ev
   (* ---- push ---- *)
   | P_lock o =>
     match wmtx g with
-    | None => Some (with_mtx g (Some t), goto (P_alloc o), [E K_LOCK O_MTX 0])
+    | None => Some (with_mtx g (Some t), goto (if throws o then PX_alloc else P_alloc o), [E K_LOCK O_MTX 0])
     | Some _ => None
     end
+  | PX_alloc =>
+    let '(g1, n) := do_alloc g BRaw in
+    Some (g1, goto (PX_constr n), [E K_ALLOC (cbase n) 1])
+  | PX_constr n => Some (g, goto (PX_free n), [E K_CALL 0 FID_CTOR; E K_THROW 0 0])
+  | PX_free n =>
+    let '(g1, es) := do_dealloc_raw g n in
+    Some (g1, goto PX_unl, es)
+  | PX_unl => Some (with_mtx g None, done_, [E K_UNLOCK O_MTX 0; E K_CATCH 0 0])
   | P_alloc o =>
     let '(g1, n) := do_alloc g (BNode dnode) in
     let g2 := if is_front o then with_pos g1 (lo g1 - 1) (hi g1) else with_pos g1 (lo g1) (hi g1 + 1) in
@@ -335,7 +356,7 @@ Definition tstep (t c : nat) (g : glob) (l : loc) : option (glob * loc * list ev
   | P_constr o n =>
     let p := if is_front o then lo g else hi g in
     let '(g1, es) := do_construct g n (BNode (Node None None false (push_val o) p)) in
-    Some (g1, goto (P_ld o n), es)
+    Some (g1, goto (P_ld o n), E K_CALL 0 FID_CTOR :: es)
   | P_ld o n =>
     if is_front o then
       Some (g, goto (match head g with None => P_e1 o n | Some old => PF_next n old end), [ptr_ld O_HEAD (head g) mo_default])
